@@ -292,14 +292,20 @@ def r3(ctx):
         ctx.emit('C06-R3', not bad, FRAG_CHIC, ch, f'CHIC radius test over {ncase} cases == radius > 0 and |site diff| > radius' if not bad else f'CHIC radius test differs: {bad[0]}', key='CHIC:radius-predicate')
 
 
-@rule('C06', 'C06-R4', 'a molecule is not ejected while a later fragment could still join it: ejection predicate and span maintenance (shared with C07-R4/R5), and no fragment joins two molecules (C07-R6)')
+@rule('C06', 'C06-R4', 'a molecule is not ejected while a later fragment could still join it: ejection predicate and span maintenance (shared with C07-R4/R5), and no fragment joins two molecules (C07-R2, C07-R6)')
 def r4(ctx):
     from . import C07
     sub = Ctx(ctx.ix, 'C07', ctx.tier)
-    C07.r4(sub)
-    C07.r5(sub)
-    C07.r6(sub)
+    errors = []
+    for fn_ in (C07.r2,          # every fragment is consumed exactly once (a fragment in two molecules is written twice)
+                C07.r4, C07.r5, C07.r6):
+        try:
+            fn_(sub)
+        except AnalysisError as e_:
+            errors.append(e_)
     _include(ctx, sub, 'C07', 'C06-R4')
+    if errors:
+        raise errors[0]
 
 
 @rule('C06', 'C06-R5', 'PCR copies of one cut get the same site whatever their soft clipping: site formulas of NlaIII / scCHIC (shared with C09-R1/R4)')
